@@ -330,3 +330,6 @@ VM("c06-separators-consumed", "C06", [("data/formats/csv.py", "def parse_csv(", 
 V("c01-open-counted-as-short", "C01", PAR, "            inf_indices: Indices = where(isinf(Z))[0]", "            inf_indices: Indices = where(isinf(Z) | (Z == 0.0))[0]", "fire", "Parallel._impedance:law")
 V("c01-short-not-zero", "C01", PAR, "                shorted[zero_indices] = True\n", "                pass\n", "fire", "Parallel._impedance:law")
 V("c01-all-open-not-refused", "C01", PAR, "        elif num_open_paths == len(self._elements):\n            raise InfiniteImpedance()\n", "", "fire", "Parallel._impedance:law")
+V("c03-param-upper-as-lower", "C03", PARSER, "                lower = self.param_limit(value.value, upper=False)\n                if self.accept(ForwardSlash):\n                    self.pop_token()\n                    upper = self.param_limit(value.value, upper=True)", "                upper = self.param_limit(value.value, upper=False)\n                if self.accept(ForwardSlash):\n                    self.pop_token()\n                    lower = self.param_limit(value.value, upper=True)", "fire", "Parser.param:limit-order")
+V("c03-percent-of-limit", "C03", PARSER, "            return value * limit.value / 100", "            return limit.value / 100", "fire", "Parser.param:limit-order")
+V("c03-label-before-params", "C03", PARSER, "                    lower_limits[key] = lower\n", "                    lower_limits[key] = upper\n", "fire", "Parser.parameters:round-trip")
